@@ -201,14 +201,14 @@ PROPS = {
     ),
     "C02": dict(
         design_ref="DESIGN.md 4 (C02)",
-        level_text="Coq theorem: COMPLETENESS of the Pratt parser model w.r.t. an executable token-level specification of the subset as ECMA-262 parses it (Grammar.v: expression levels, left-associative binary operators, right-associative assignment with simple targets, restricted productions after return and before postfix ++/--, automatic semicolon insertion, else bound to the nearest if): for EVERY (tree, token list) pair of the grammar the default parser returns exactly that tree - every stored token included - with no error; the grammar is unambiguous. The statement sees tokens only through type, literal, after-newline flag and identity, so the tree is a function of the token sequence. The specification is validated against node 20 on generated programs (every program the reference unparser renders is accepted by node and is in the grammar) and rejects every known case where xjs accepts invalid JavaScript.",
+        level_text="Coq theorem: COMPLETENESS of the Pratt parser model w.r.t. an executable token-level specification of the subset as ECMA-262 parses it (Grammar.v: expression levels, left-associative binary operators, right-associative assignment with simple targets, restricted productions after return and before postfix ++/--, automatic semicolon insertion, else bound to the nearest if): for EVERY (tree, token list) pair of the grammar the default parser returns exactly that tree - every stored token included - with no error; the grammar is unambiguous. LAYOUT INDEPENDENCE (C02_layout_independent), for EVERY input valid or malformed, every mode, interceptor list and registered operator: two token lists that agree on type, literal and after-newline flag of every token - the same lexemes in any two layouts with line breaks between the same tokens, with any comments and blank lines - give trees of the same shape, the same error kinds in the same order and the same error flag. The specification is validated against node 20 on generated programs (every program the reference unparser renders is accepted by node and is in the grammar) and rejects every known case where xjs accepts invalid JavaScript.",
         level_note="Trusted: Coq kernel, translator xjs2v (binding powers, handler tables, ASI switch), extraction, harness/driver correspondence (parse suite), Grammar.v as the meaning of 'as JavaScript parses it'. Modelled not verified: parser control flow (differentially tested); strconv acceptance. The lexical half (text to tokens) is C10; redundant parentheses are grouping nodes of the grammar.",
         technique="Coq proof (Pratt completeness in continuation form by induction on tree size, statements and ASI included) + model/implementation correspondence",
         suites=[dict(suite="parse", n_quick=3000, n_thorough=100000, what="sources x 4 modes: tree, errors, flag",
                      projection=POS_FREE),
                 dict(suite="lex", n_quick=2000, n_thorough=100000, what="token cores", projection=POS_FREE)],
         oracle_n_quick=2500, oracle_n_thorough=200000,
-        explanation="C02: C02_parse_complete, C02_unambiguous.",
+        explanation="C02: C02_parse_complete, C02_unambiguous, C02_layout_independent.",
         assumptions=["numbers Go's strconv rejects (08, 1e400, integers >= 2^63) are outside the grammar (go_int_ok / go_float_ok side conditions)"],
     ),
     "C05": dict(
